@@ -230,6 +230,15 @@ class _Group(NativeAbs):
         return SymStr(self.m.groups[args[0]])
 
 
+def search_lang(pat, flags=0, kind="search"):
+    """the language of subjects in which re.<kind>(pat) finds a match (same term the stub branches on)"""
+    tr = RegexTranslator(pat, int(flags))
+    anyc = z3.Star(z3.AllChar(z3.ReSort(z3.StringSort())))
+    tail_lang = z3.Union(z3.Re(""), z3.Re("\n")) if tr.anchored_end else anyc
+    pre_lang = anyc if kind == "search" else z3.Re("")
+    return z3.Concat(pre_lang, tr.whole(), tail_lang), tr, tail_lang, pre_lang
+
+
 def re_stub(kind, seen):
     """Contract of re.search / re.match for a symbolic subject (T-RE).
     Fork: the subject has a match -> fresh string variables for every top-level pattern item, constrained by
@@ -242,13 +251,10 @@ def re_stub(kind, seen):
             if isinstance(subj, str) and isinstance(pat, str):
                 return fn(*args, **kwargs)
             raise Unsupported("re with non-symbolic subject")
-        tr = RegexTranslator(pat, int(flags))
+        lang, tr, tail_lang, pre_lang = search_lang(pat, flags, kind)
         seen.append((kind, pat, int(flags)))
         it.ctx.stats["assumed_calls"][f"re.{kind} semantics via sre_parse -> SMT regex (T-RE)"] = 1
         n = it.ctx.fresh_name("m")
-        tail_lang = z3.Union(z3.Re(""), z3.Re("\n")) if tr.anchored_end else z3.Star(z3.AllChar(z3.ReSort(z3.StringSort())))
-        pre_lang = z3.Star(z3.AllChar(z3.ReSort(z3.StringSort()))) if kind == "search" else z3.Re("")
-        lang = z3.Concat(pre_lang, tr.whole(), tail_lang)
         if it.ctx.branch(z3.InRe(subj.t, lang)):
             vs = []
             groups = {}
